@@ -3,17 +3,22 @@
 (* TLC's workers share the work), evaluates the contract on the algorithm    *)
 (* model, and emits every configuration for replay on the real renderer.     *)
 EXTENDS Render, Json
-CONSTANTS Sizes, RowLens, MaxRows, MaxIdx, Tpls, Menus
+CONSTANTS Sizes, RowLens, MaxRows, MaxIdx, Tpls, Menus, ErrLens, ValLens
 VARIABLES cfg, done
 
-Init == /\ cfg = [size |-> 0, tpl |-> 4, menu |-> 0, nextLen |-> 0, prevLen |-> 0, rows |-> <<>>, msink |-> FALSE]
+\* tpl is the total of static bytes: template text (tplstatic) + a mapped non-sink value (vallen) + the error prefix and its
+\* newline (errlen + 1); the components are kept so that the driver can build exactly that page
+Init == /\ cfg = [size |-> 0, tpl |-> 4, menu |-> 0, nextLen |-> 0, prevLen |-> 0, rows |-> <<>>, msink |-> FALSE,
+                  tplstatic |-> 4, errlen |-> 0, vallen |-> 0]
         /\ done = FALSE
 AddRow == /\ ~done /\ Len(cfg.rows) < MaxRows
           /\ \E r \in RowLens : cfg' = [cfg EXCEPT !.rows = Append(cfg.rows, r)]
           /\ UNCHANGED done
 Fix == /\ ~done /\ Len(cfg.rows) > 0
-       /\ \E s \in Sizes, t \in Tpls, m \in Menus, b \in BOOLEAN :
-            cfg' = [cfg EXCEPT !.size = s, !.tpl = t, !.menu = m, !.nextLen = IF b THEN 7 ELSE 0, !.prevLen = IF b THEN 11 ELSE 0]
+       /\ \E s \in Sizes, t \in Tpls, m \in Menus, b \in BOOLEAN, e \in ErrLens, v \in ValLens :
+            cfg' = [cfg EXCEPT !.size = s, !.tplstatic = t, !.errlen = e, !.vallen = v,
+                               !.tpl = t + v + (IF e > 0 THEN e + 1 ELSE 0),
+                               !.menu = m, !.nextLen = IF b THEN 7 ELSE 0, !.prevLen = IF b THEN 11 ELSE 0]
        /\ done' = TRUE
 Next == AddRow \/ Fix
 Spec == Init /\ [][Next]_<<cfg, done>>
